@@ -216,7 +216,7 @@ func (runInfo *runInfoStruct) runVarStmt(stmt *ast.VarStmt) {
 		if (value.Kind() == reflect.Slice || value.Kind() == reflect.Array) && value.Len() > 0 {
 			// value is slice/array, add each value to left side names
 			for i := 0; i < value.Len() && i < len(stmt.Names); i++ {
-				runInfo.env.DefineValue(stmt.Names[i], value.Index(i))
+				runInfo.env.DefineValue(stmt.Names[i], detachValue(value.Index(i)))
 			}
 			// return last value of slice/array
 			runInfo.rv = value.Index(value.Len() - 1)
@@ -265,7 +265,7 @@ func (runInfo *runInfoStruct) runLetsStmt(stmt *ast.LetsStmt) {
 		if (value.Kind() == reflect.Slice || value.Kind() == reflect.Array) && value.Len() > 0 {
 			// value is slice/array, add each value to left side expression
 			for i := 0; i < value.Len() && i < len(stmt.LHSS); i++ {
-				runInfo.rv = value.Index(i)
+				runInfo.rv = detachValue(value.Index(i))
 				runInfo.expr = stmt.LHSS[i]
 				runInfo.invokeLetExpr()
 				if runInfo.err != nil {
